@@ -130,6 +130,8 @@ with prelude.NoTracing():
         (("H+", "E"), ("H",), -1.0, -1.0, 100),  # other electron spelling
         (("H", "H"), ("H2", "H"), -1.0, -1.0, 100),  # same *sets* as entry 5, different multisets
         (("H2", "H"), ("H", "H"), -1.0, -1.0, 100),  # same sets as entries 6/7, different multisets
+        (("H", "CO"), ("HCO",), 10.0, 800.0, 100),  # entry 0 with another upper bound only
+        (("CO", "H"), ("HCO",), 5.0, 300.0, 100),  # entry 0 with another lower bound only
     ]
     POOL = [Reaction(list(r), list(p), lo, hi, reaction_type=ReactionType(t)) for r, p, lo, hi, t in POOL_DESC]
 
@@ -172,7 +174,7 @@ def _real_untraced(sel, mode):
 def real_default(sel: List[int]) -> bool:
     """
     pre: len(sel) <= 3
-    pre: all(0 <= x < 12 for x in sel)
+    pre: all(0 <= x < 14 for x in sel)
     post: _ == True
     """
     return _real(sel, None)
@@ -181,7 +183,7 @@ def real_default(sel: List[int]) -> bool:
 def real_brief(sel: List[int]) -> bool:
     """
     pre: len(sel) <= 3
-    pre: all(0 <= x < 12 for x in sel)
+    pre: all(0 <= x < 14 for x in sel)
     post: _ == True
     """
     return _real(sel, "brief")
@@ -190,7 +192,7 @@ def real_brief(sel: List[int]) -> bool:
 def real_minimal(sel: List[int]) -> bool:
     """
     pre: len(sel) <= 3
-    pre: all(0 <= x < 12 for x in sel)
+    pre: all(0 <= x < 14 for x in sel)
     post: _ == True
     """
     return _real(sel, "minimal")
@@ -199,7 +201,7 @@ def real_minimal(sel: List[int]) -> bool:
 def real_short(sel: List[int]) -> bool:
     """
     pre: len(sel) <= 3
-    pre: all(0 <= x < 12 for x in sel)
+    pre: all(0 <= x < 14 for x in sel)
     post: _ == True
     """
     return _real(sel, "short")
@@ -207,7 +209,7 @@ def real_short(sel: List[int]) -> bool:
 
 def eq_laws(i: int, j: int) -> bool:
     """
-    pre: 0 <= i < 12 and 0 <= j < 12
+    pre: 0 <= i < 14 and 0 <= j < 14
     post: _ == True
     """
     i, j = prelude.concrete(i), prelude.concrete(j)
